@@ -1454,6 +1454,31 @@ private:
     return to_interval(expr, m_base_dom);
   }
 
+  // Return true if each multiple of elem_sz in the interval idx is the
+  // offset of some cell in cells.
+  static bool covers_all_offsets(const std::vector<cell_t> &cells,
+                                 const interval_t &idx, uint64_t elem_sz) {
+    boost::optional<number_t> lb = idx.lb().number();
+    boost::optional<number_t> ub = idx.ub().number();
+    if (!lb || !ub || *lb < number_t(0)) {
+      return false;
+    }
+    number_t sz(elem_sz);
+    number_t o = ((*lb + sz - 1) / sz) * sz;
+    if ((*ub - o) / sz >= number_t((int64_t)cells.size())) {
+      return false;
+    }
+    for (; o <= *ub; o = o + sz) {
+      offset_t off(static_cast<int64_t>(o));
+      if (std::find_if(cells.begin(), cells.end(), [&off](const cell_t &c) {
+            return c.get_offset() == off;
+          }) == cells.end()) {
+        return false;
+      }
+    }
+    return true;
+  }
+
   void kill_cells(const variable_t &a, const std::vector<cell_t> &cells,
                   offset_map_t &offset_map) {
 
@@ -2460,7 +2485,12 @@ public:
         // do many reads with symbolic offsets then it might be better
         // to smash the array so that each read is cheaper.
         if (crab_domain_params_man::get().array_adaptive_is_smashable()) {
-          if (array_state::can_be_smashed(cells, e_sz, true)) {
+          if (array_state::can_be_smashed(cells, e_sz, true) &&
+              // The join of the overlapping cells is the value read
+              // only if each offset that the index can take is the
+              // offset of one of them. Otherwise, the read can be
+              // from a part of the array whose contents are unknown.
+              covers_all_offsets(cells, ii, e_sz)) {
             // we smash all overlapping cells into a temporary array
             // (summarized) variable
             auto &vfac =
